@@ -68,19 +68,28 @@ Merge(t, view, k) ==
   /\ UNCHANGED <<seeded, next>>
 
 (* PatchRequest with commit = Some(c): rewind to position c (an event       *)
-(* appended by a request), merge, roll the rewind back unless it succeeded  *)
-RewindPatch(t, c, view, k) ==
-  /\ c \in 1..Len(srv[t]) /\ c + k <= MaxLen
+(* appended by a request), merge, roll the rewind back unless it succeeded. *)
+(* The rewind discards the events after c: the request is refused with a    *)
+(* conflict, before anything is touched, unless the patch carries all of    *)
+(* them (`carry`: the sender merged the server's events into its patch, as  *)
+(* an auto merge does; otherwise events the server accepted from another    *)
+(* device in the meantime would be lost)                                    *)
+RewindPatch(t, c, view, k, carry) ==
+  /\ c \in 1..Len(srv[t])
   /\ LET cut == SubSeq(srv[t], 1, c)
-         o == MergeOutcome(t, cut, view, Fresh(cut, k))
-     IN /\ srv' = [srv EXCEPT ![t] = IF o.res = "success" THEN o.log ELSE srv[t]]
+         dropped == SubSeq(srv[t], c + 1, Len(srv[t]))
+         patch == IF carry THEN dropped \o Fresh(srv[t], k) ELSE Fresh(cut, k)
+         keeps == carry \/ dropped = <<>>
+         o == IF keeps THEN MergeOutcome(t, cut, view, patch) ELSE [res |-> "conflict", log |-> srv[t]]
+     IN /\ c + Len(patch) <= MaxLen
+        /\ srv' = [srv EXCEPT ![t] = IF o.res = "success" THEN o.log ELSE srv[t]]
         /\ last' = [op |-> "rewindpatch", t |-> t, c |-> c, view |-> view, k |-> k, res |-> o.res,
-                    before |-> srv[t]]
+                    before |-> srv[t], keeps |-> keeps]
   /\ UNCHANGED <<seeded, next>>
 
 Next == \E t \in LogTypes, k \in 1..2 :
           \/ \E view \in Views(t) : Merge(t, view, k)
-          \/ \E c \in 1..Len(srv[t]), view \in Views(t) : RewindPatch(t, c, view, k)
+          \/ \E c \in 1..Len(srv[t]), view \in Views(t), carry \in BOOLEAN : RewindPatch(t, c, view, k, carry)
 
 Spec == Init /\ [][Next]_vars
 
@@ -88,11 +97,13 @@ Spec == Init /\ [][Next]_vars
 IsPrefix(a, b) == Len(a) <= Len(b) /\ SubSeq(b, 1, Len(a)) = a
 
 (* C07: a patch is applied iff the log's head is the head the sender        *)
-(* computed it against (for a rewind request: the head after the rewind)    *)
+(* computed it against (for a rewind request: the head after the rewind,   *)
+(* and the rewind discards nothing the patch does not carry)                *)
 AppliedIffAgreedBase ==
   last.op \in {"merge", "rewindpatch"} =>
     LET base == IF last.op = "merge" THEN last.before ELSE SubSeq(last.before, 1, last.c)
-        agreed == last.view = base /\ ~(~seeded[last.t] /\ base = <<>> /\ last.t # "files")
+        agreed == /\ last.view = base /\ ~(~seeded[last.t] /\ base = <<>> /\ last.t # "files")
+                  /\ (last.op = "rewindpatch" => last.keeps)
     IN (last.res = "success") <=> agreed
 (* a refused request leaves the log exactly as it was *)
 RefusedUnchanged ==
